@@ -254,6 +254,8 @@ def run(P, R, L):
     K.ord22_writer_offset_after_the_write(P, R, L)
     R.clause("ORD-21", "a failed table open leaves the file-level iterator's (index, iterator) pair untouched: the retry does not skip the file")
     K.ord21_file_loader_commits_after_open(P, R, L)
+    R.clause("PAIR-12", "a failed block read leaves the two-level iterator's (block iterator, loaded handle) pair as it was: the handle is not committed before the read succeeded, so a retried seek loads the block instead of trusting a stale iterator")
+    K.pair12_file_level_pairs(P, R, L, only={"tables::table::TwoLevelIterator"})
     R.clause("ERR-3", "a source that could not be positioned is reported by the merging iterator's seek methods (a scan fails, it does not serve what the source shadows)")
     K.err3_merge_seek_reports(P, R, L)
     from . import round12
